@@ -138,7 +138,7 @@ def purity(facts, rep):
             rep.bad(rule, key, '%s:%s' % (fa.file, fa.line), 'find_all takes `%s self`: a search can change the matcher' %
                     fa.raw.get('self_kind'))
         key = '%s|type-is-freeze' % name
-        if a['freeze']:
+        if facts.adt_freeze(adt):
             rep.ok(rule, key, '%s:%s' % (a['file'], a['line']), 'no UnsafeCell reachable')
         else:
             nf = [f['name'] for f in a['variants'][0]['fields'] if not f['freeze']]
